@@ -4,6 +4,7 @@ import PytmeModel.Proofs.C05Call
 import PytmeModel.Proofs.C05Fast
 import PytmeModel.Proofs.C05Hist
 import PytmeModel.Proofs.C05Post
+import PytmeModel.Proofs.C05Batch
 
 /-!
 # C05 — reported peaks are in bounds, separated, limited, and agree with the score map
@@ -21,6 +22,10 @@ Statements are about the executable model `Pm.C05` (Model/C05.lean), which mirro
   contracts the harness checks on every recorded answer (`TopkOk_of_isTopK`).  With no oracle the
   deterministic model is used and the contracts hold by `histOk_none`, `maxOrcOk_none`, `mergeOk_none`.
 * The separation clause needs `0 < min_distance` (`min_distance = 0` switches the filter off by design).
+* Model/C05Batch.lean adds what the peak callers reach beyond that: `_batchify`, the `batch_dims` rescaling inside
+  `filter_points_indices`, `__call__` / `_update` / `merge` of a caller built with `batch_dims` (`runB`, `updateB`,
+  `mergeB`: deterministic model, tie-free scores), `_filter_bucket` (non-numpy backends), the C++
+  `max_index_by_label` and the representatives `PeakClustering.merge` keeps (DBSCAN's labels are an oracle).
 -/
 namespace Pm.C05
 
@@ -268,6 +273,426 @@ theorem maxfilter_constant_padding_current_defect :
 /-- pre-fix `split_shape`: extent 15, distance 2 (7 tiles of 3) — tile 5 starts at 15, it is empty -/
 theorem split_shape_current_defect :
     15 ∈ tileStartsOld 15 2 ∧ ∀ s ∈ tileStarts 15 2, s + tileLen 15 2 ≤ 15 := by decide
+
+/-! ## `filter_points_indices(..., batch_dims)`: batch axes are multiplied by `2 * min_distance` -/
+
+/-- without `batch_dims` the filter is the one of the theorems above -/
+theorem batch_filter_without_batch_dims (md : Nat) (xs : List Peak) :
+    filterPointsB md none xs = filterPoints md xs := by
+  unfold filterPointsB filterPoints
+  split
+  · rfl
+  · exact greedyAuxB_none md xs []
+
+example : filterPointsB 1 none [⟨[0, 0], 0, 9⟩, ⟨[0, 1], 1, 8⟩, ⟨[3, 3], 2, 7⟩] = [⟨[0, 0], 0, 9⟩, ⟨[3, 3], 2, 7⟩] := by decide
+
+/-- the rows handed in are reported unchanged (not the rescaled ones) -/
+theorem batch_filter_reports_input_rows (md : Nat) (bd : Option (List Nat)) (xs : List Peak) :
+    ∀ p ∈ filterPointsB md bd xs, p ∈ xs := by
+  intro p hp
+  unfold filterPointsB at hp
+  split at hp
+  · exact hp
+  · rcases greedyAuxB_mem md bd xs [] p hp with h | h
+    · simp at h
+    · exact h
+
+/-- the C++ test on the rescaled rows, for rows of different batches: always passed -/
+theorem batch_filter_other_batches_never_suppress {md : Nat} (hmd : 0 < md) (bd : List Nat) (p q : List Int)
+    (i : Nat) (hi : i ∈ bd) (hp : i < p.length) (hq : i < q.length) (hne : p[i] ≠ q[i]) :
+    farB md (some bd) p q = true := farB_diff hmd bd p q i hi hp hq hne
+
+example : farB 5 (some [0]) [0, 7, 7] [1, 7, 7] = true ∧ far 5 [0, 7, 7] [1, 7, 7] = false := by decide
+
+/-- inside one batch the distance rule is unchanged -/
+theorem batch_filter_same_batch_rule_unchanged (md : Nat) (bd : List Nat) (p q : List Int)
+    (h : ∀ i ∈ bd, p[i]? = q[i]?) : farB md (some bd) p q = far md p q := farB_same md bd p q h
+
+example : farB 2 (some [0]) [4, 0, 0] [4, 1, 2] = far 2 [4, 0, 0] [4, 1, 2] ∧ far 2 [4, 0, 0] [4, 1, 2] = false := by decide
+
+/-- reported rows of one batch are farther apart than the minimum distance -/
+theorem batch_filter_same_batch_far {md : Nat} (hmd : 0 < md) (bd : List Nat) (xs : List Peak) :
+    (filterPointsB md (some bd) xs).Pairwise (fun a b =>
+      (∀ i ∈ bd, a.pos[i]? = b.pos[i]?) → (md : Int) * (md : Int) < d2 a.pos b.pos) := by
+  unfold filterPointsB
+  rw [if_neg (by omega)]
+  refine (greedyAuxB_pairwise md (some bd) xs [] List.Pairwise.nil).imp ?_
+  intro a b h hs
+  unfold FarPB at h
+  rw [farB_same md bd _ _ hs] at h
+  exact far_sep h
+
+/-- peaks in different batches never suppress each other: a row that is not reported has a reported
+row *of its own batch* that fails the C++ distance test against it -/
+theorem batch_filter_suppressor_in_same_batch {md : Nat} (hmd : 0 < md) (bd : List Nat) (xs : List Peak) (n : Nat)
+    (hlen : ∀ p ∈ xs, p.pos.length = n) (hbd : ∀ i ∈ bd, i < n) (x : Peak) (hx : x ∈ xs)
+    (hdrop : x ∉ filterPointsB md (some bd) xs) :
+    ∃ k ∈ filterPointsB md (some bd) xs, (∀ i ∈ bd, x.pos[i]? = k.pos[i]?) ∧ far md x.pos k.pos = false := by
+  have hmem := batch_filter_reports_input_rows md (some bd) xs
+  unfold filterPointsB at hdrop hmem ⊢
+  rw [if_neg (by omega)] at hdrop hmem ⊢
+  obtain ⟨k, hk, hf⟩ := greedyAuxB_dropped md (some bd) xs [] x hx hdrop
+  have hsame : ∀ i ∈ bd, x.pos[i]? = k.pos[i]? := by
+    intro i hi
+    have h1 : i < x.pos.length := by rw [hlen x hx]; exact hbd i hi
+    have h2 : i < k.pos.length := by rw [hlen k (hmem k hk)]; exact hbd i hi
+    by_contra hne
+    have : x.pos[i] ≠ k.pos[i] := by
+      intro h; apply hne; rw [List.getElem?_eq_getElem h1, List.getElem?_eq_getElem h2, h]
+    rw [farB_diff hmd bd x.pos k.pos i hi h1 h2 this] at hf
+    exact Bool.noConfusion hf
+  refine ⟨k, hk, hsame, ?_⟩
+  rw [← farB_same md bd _ _ hsame]; exact hf
+
+/-- hypotheses of `batch_filter_suppressor_in_same_batch` on the example below: rows of rank 3, batch axis 0, and
+(0,7,9) is handed in but not reported -/
+example : (∀ p ∈ ([⟨[0, 7, 7], 0, 9⟩, ⟨[1, 7, 7], 1, 8⟩, ⟨[0, 7, 9], 2, 7⟩] : List Peak), p.pos.length = 3) ∧
+    (∀ i ∈ ([0] : List Nat), i < 3) ∧
+    (⟨[0, 7, 9], 2, 7⟩ : Peak) ∉ filterPointsB 5 (some [0]) [⟨[0, 7, 7], 0, 9⟩, ⟨[1, 7, 7], 1, 8⟩, ⟨[0, 7, 9], 2, 7⟩] := by
+  decide
+
+/-- the best row is always reported -/
+theorem batch_filter_first_kept (md : Nat) (bd : Option (List Nat)) (x : Peak) (rest : List Peak) :
+    x ∈ filterPointsB md bd (x :: rest) := by
+  unfold filterPointsB
+  split
+  · simp
+  · unfold greedyAuxB
+    simp only [List.all_nil, if_true]
+    exact greedyAuxB_kept md bd rest _ x (by simp)
+
+/-- two batches (axis 0), distance 5: the rows (0,7,7) and (1,7,7) are both reported although they are one voxel
+apart, (0,7,9) is suppressed by (0,7,7) of its own batch -/
+example : filterPointsB 5 (some [0]) [⟨[0, 7, 7], 0, 9⟩, ⟨[1, 7, 7], 1, 8⟩, ⟨[0, 7, 9], 2, 7⟩]
+    = [⟨[0, 7, 7], 0, 9⟩, ⟨[1, 7, 7], 1, 8⟩] := by decide
+
+/-! ## `_filter_bucket` (the path of `filter_points_indices` for coordinates that are not a `numpy.ndarray`:
+reachable on the cupy / jax backends only; on the numpy backend the C++ greedy pass above runs) -/
+
+/-- the reported rows lie in pairwise different buckets -/
+theorem filterBucket_distinct_buckets (md : Nat) (coords : List (List Int)) (i j : Nat)
+    (hi : i ∈ filterBucket md coords) (hj : j ∈ filterBucket md coords) (hne : i ≠ j) :
+    (bucketRows md coords).getD i [] ≠ (bucketRows md coords).getD j [] := by
+  intro heq
+  unfold filterBucket at hi hj
+  have h := firstOcc_distinct hi hj hne
+  have li := (mem_firstOcc.mp hi).1
+  have lj := (mem_firstOcc.mp hj).1
+  simp only [bucketFlat, List.length_map] at li lj
+  rw [bucketFlat_getD _ i li, bucketFlat_getD _ j lj, heq] at h
+  exact h rfl
+
+/-- rows are reported in the order given, the first row always -/
+theorem filterBucket_sorted_first (md : Nat) (coords : List (List Int)) :
+    (filterBucket md coords).Pairwise (· < ·) ∧ (coords ≠ [] → 0 ∈ filterBucket md coords) := by
+  refine ⟨firstOcc_sorted _, fun h => firstOcc_zero ?_⟩
+  cases coords with
+  | nil => exact absurd rfl h
+  | cons c cs => simp [bucketFlat, bucketRows]
+
+/-- one representative per flattened bucket id: every row has a reported row at or before it with the same id -/
+theorem filterBucket_representative (md : Nat) (coords : List (List Int)) (i : Nat) (hi : i < coords.length) :
+    ∃ j ∈ filterBucket md coords, j ≤ i ∧
+      (bucketFlat (bucketRows md coords)).getD j 0 = (bucketFlat (bucketRows md coords)).getD i 0 :=
+  firstOcc_repr _ i (by simpa [bucketFlat, bucketRows] using hi)
+
+example : filterBucket 2 [[0, 0], [1, 1], [4, 0], [5, 1], [0, 5]] = [0, 2, 4] ∧
+    bucketRows 2 [[0, 0], [1, 1], [4, 0], [5, 1], [0, 5]] = [[0, 0], [0, 0], [2, 0], [2, 0], [0, 2]] := by decide
+
+/-- **the bucket filter does not enforce the distance**: 5 and 6 lie in neighbouring buckets of width 3, both are
+reported although they are 1 apart (the greedy pass reports rows 0 and 1 only) -/
+theorem filterBucket_close_pair_witness :
+    filterBucket 3 [[0], [5], [6]] = [0, 1, 2] ∧ d2 [5] [6] = 1 ∧
+    (filterPoints 3 [⟨[0], 0, 0⟩, ⟨[5], 1, 0⟩, ⟨[6], 2, 0⟩]).map (·.rot) = [0, 1] := by decide
+
+/-- **the flattening `Σ bucket_j * (max_j + 1) ^ j` is not injective**: the buckets (0,1) and (2,0) get the same id 2,
+so the row (2,0) is dropped although it is alone in its bucket and far from the only other row -/
+theorem filterBucket_collision_witness :
+    filterBucket 1 [[0, 1], [2, 0]] = [0] ∧ bucketRows 1 [[0, 1], [2, 0]] = [[0, 1], [2, 0]] ∧
+    bucketFlat [[0, 1], [2, 0]] = [2, 2] ∧ far 1 [0, 1] [2, 0] = true := by decide
+
+/-! ## C++ `max_index_by_label` and the representatives `PeakClustering.merge` keeps (DBSCAN's labels are an oracle) -/
+
+theorem mem_maxIndexByLabel {L S : List Int} {l : Int} {j : Nat} (h : (l, j) ∈ maxIndexByLabel L S) :
+    ∃ s, (l, s, j) ∈ miblGo 0 L S [] := by
+  unfold maxIndexByLabel at h
+  obtain ⟨e, he, heq⟩ := List.mem_map.mp h
+  simp only [Prod.mk.injEq] at heq
+  exact ⟨e.2.1, by rw [← heq.1, ← heq.2]; exact he⟩
+
+/-- every reported pair `(label, row)`: the row carries that label, no row of the label scores higher, and among the
+best rows of the label it is the first -/
+theorem maxIndexByLabel_best_first_of_label (L S : List Int) (hlen : L.length = S.length) :
+    ∀ lj ∈ maxIndexByLabel L S, lj.2 < L.length ∧ L[lj.2]? = some lj.1 ∧
+      ∀ (i : Nat) (t u : Int), L[i]? = some lj.1 → S[i]? = some t → S[lj.2]? = some u → t ≤ u ∧ (t = u → lj.2 ≤ i) := by
+  intro lj h
+  obtain ⟨s, hs⟩ := mem_maxIndexByLabel (l := lj.1) (j := lj.2) h
+  obtain ⟨_, hP, _⟩ := mibl_final L S hlen
+  obtain ⟨p1, p2, p3, p4⟩ := hP _ hs
+  refine ⟨p1, p2, ?_⟩
+  intro i t u hi ht hu
+  simp only at p3
+  rw [p3] at hu
+  have hu' : s = u := Option.some.inj hu
+  subst hu'
+  have hil : i < L.length := by
+    rcases Nat.lt_or_ge i L.length with h | h
+    · exact h
+    · rw [List.getElem?_eq_none h] at hi; simp at hi
+  exact p4 i hil hi t ht
+
+/-- every label that occurs has a representative -/
+theorem maxIndexByLabel_complete (L S : List Int) (hlen : L.length = S.length) (i : Nat) (l : Int)
+    (hi : L[i]? = some l) : ∃ j, (l, j) ∈ maxIndexByLabel L S := by
+  obtain ⟨_, _, hcov⟩ := mibl_final L S hlen
+  have hil : i < L.length := by
+    rcases Nat.lt_or_ge i L.length with h | h
+    · exact h
+    · rw [List.getElem?_eq_none h] at hi; simp at hi
+  obtain ⟨e, he, hk⟩ := List.mem_map.mp (hcov i hil l hi)
+  exact ⟨e.2.2, by
+    unfold maxIndexByLabel
+    exact List.mem_map.mpr ⟨e, he, by simp [← hk]⟩⟩
+
+/-- exactly one representative per label -/
+theorem maxIndexByLabel_one_per_label (L S : List Int) (hlen : L.length = S.length) :
+    ((maxIndexByLabel L S).map (·.1)).Nodup := by
+  obtain ⟨hnd, _, _⟩ := mibl_final L S hlen
+  unfold maxIndexByLabel
+  simpa [List.map_map, Function.comp_def] using hnd
+
+example : maxIndexByLabel [0, 1, -1, 1, 0] [1, 5, 2, 5, 3] = [(0, 4), (1, 1), (-1, 2)] := by decide
+
+/-- the rows `PeakClustering.merge` keeps: exactly the representatives of the labels other than the noise label,
+in row order -/
+theorem clusterKeep_iff (L S : List Int) (i : Nat) :
+    i ∈ clusterKeep L S ↔ i < L.length ∧ ∃ l, l ≠ -1 ∧ (l, i) ∈ maxIndexByLabel L S := by
+  unfold clusterKeep
+  simp only [List.mem_filter, List.mem_range, List.contains_eq_mem, List.mem_map, decide_eq_true_eq,
+    bne_iff_ne, ne_eq, Prod.exists, exists_eq_right]
+  constructor
+  · rintro ⟨h1, l, h2, h3⟩; exact ⟨h1, l, h3, h2⟩
+  · rintro ⟨h1, l, h2, h3⟩; exact ⟨h1, l, h3, h2⟩
+
+/-- no noise row is kept, a kept row is the first best row of its cluster, and every cluster keeps a row -/
+theorem clusterKeep_spec (L S : List Int) (hlen : L.length = S.length) :
+    (∀ i ∈ clusterKeep L S, ∃ l, l ≠ -1 ∧ L[i]? = some l ∧
+      ∀ (k : Nat) (t u : Int), L[k]? = some l → S[k]? = some t → S[i]? = some u → t ≤ u ∧ (t = u → i ≤ k)) ∧
+    (∀ (k : Nat) (l : Int), L[k]? = some l → l ≠ -1 → ∃ i ∈ clusterKeep L S, L[i]? = some l) ∧
+    (clusterKeep L S).Pairwise (· < ·) := by
+  refine ⟨?_, ?_, ?_⟩
+  · intro i hi
+    obtain ⟨_, l, hl, hm⟩ := (clusterKeep_iff L S i).mp hi
+    obtain ⟨_, h2, h3⟩ := maxIndexByLabel_best_first_of_label L S hlen _ hm
+    exact ⟨l, hl, h2, h3⟩
+  · intro k l hk hl
+    obtain ⟨j, hj⟩ := maxIndexByLabel_complete L S hlen k l hk
+    obtain ⟨h1, h2, _⟩ := maxIndexByLabel_best_first_of_label L S hlen _ hj
+    exact ⟨j, (clusterKeep_iff L S j).mpr ⟨h1, l, hl, hj⟩, h2⟩
+  · unfold clusterKeep
+    exact List.Pairwise.filter _ List.pairwise_lt_range
+
+example : clusterKeep [0, 1, -1, 1, 0] [1, 5, 2, 5, 3] = [1, 4] := by decide
+
+/-- **today's `PeakClustering.merge` ranks and reports `candidate[2]`, the third coordinate, not the score**: of two
+rows of one cluster with scores 10 and 20 at the same voxel it keeps the first and reports the score 3 (ranking by the
+scores keeps the second with its score 20) -/
+theorem cluster_merge_third_coordinate_current_defect :
+    clusterMerge [⟨[1, 2, 3], 0, 10⟩, ⟨[1, 2, 3], 1, 20⟩] [0, 0] = [⟨[1, 2, 3], 0, 3⟩] ∧
+    clusterMergeByScore [⟨[1, 2, 3], 0, 10⟩, ⟨[1, 2, 3], 1, 20⟩] [0, 0] = [⟨[1, 2, 3], 1, 20⟩] := by decide
+
+/-- ranking by the scores: every reported row is one of the rows handed in, unchanged, and not a noise row -/
+theorem clusterMergeByScore_mem (peaks : List Peak) (labels : List Int) :
+    ∀ p ∈ clusterMergeByScore peaks labels, ∃ i ∈ clusterKeep labels (peaks.map (·.score)), peaks[i]? = some p := by
+  intro p hp
+  unfold clusterMergeByScore at hp
+  obtain ⟨i, hi, h⟩ := List.mem_filterMap.mp hp
+  exact ⟨i, hi, h⟩
+
+example : clusterMergeByScore [⟨[1, 2, 3], 0, 10⟩, ⟨[4, 4, 4], 2, 30⟩, ⟨[1, 2, 3], 1, 20⟩] [0, -1, 0]
+    = [⟨[1, 2, 3], 1, 20⟩] := by decide
+
+/-! ## `PeakCaller._batchify`: the subsets `__call__` hands to `call_peaks` and the offsets it adds back -/
+
+/-- without `batch_dims`: one subset, the whole array, offset zero -/
+theorem batchify_none (shape : List Nat) :
+    batchify shape none = [shape.map (fun _ => none)] ∧
+    selShape shape (shape.map (fun _ => none)) = shape ∧
+    selOffset (shape.map (fun _ => (none : Option Nat))) = shape.map (fun _ => 0) := by
+  refine ⟨rfl, ?_, by simp [selOffset]⟩
+  induction shape with
+  | nil => rfl
+  | cons s ss ih => simp [selShape, ih]
+
+/-- every yielded subset addresses every axis -/
+theorem batchify_rank (shape : List Nat) (bd : Option (List Nat)) :
+    ∀ sel ∈ batchify shape bd, sel.length = shape.length := by
+  intro sel h
+  cases bd with
+  | none => simp only [batchify, List.mem_singleton] at h; simp [h]
+  | some b =>
+    simp only [batchify, List.mem_map] at h
+    obtain ⟨cur, _, rfl⟩ := h
+    exact batchAxes_length b cur _ 0 0
+
+/-- the number of `(subset, offset)` pairs is the product of the batch extents (any `batch_dims`) -/
+theorem batchify_count (shape bd : List Nat) :
+    (batchify shape (some bd)).length = (bd.map (fun d => shape.getD d 0)).foldr (· * ·) 1 := by
+  simp [batchify, prodLists_length, List.map_map, Function.comp_def]
+
+example : (batchify [2, 3, 2] (some [0, 2])).length = 4 := by decide
+
+/-- ascending `batch_dims`: the yielded subsets are exactly "one index `< extent` on every batch axis, `slice(None)`
+on every other axis" -/
+theorem batchify_subsets_explicit (shape bd : List Nat) (hs : bd.Pairwise (· < ·)) (sel : List (Option Nat)) :
+    sel ∈ batchify shape (some bd) ↔ ∃ cur : List Nat,
+      List.Forall₂ (fun x d => x < shape.getD d 0) cur bd ∧
+      sel = (List.range shape.length).map (fun a =>
+        if bd.contains a then some (cur.getD (bd.idxOf a) 0) else none) := mem_batchify hs
+
+/-- **the batches cover the array**: every voxel lies in a yielded subset -/
+theorem batchify_covers (shape bd : List Nat) (hs : bd.Pairwise (· < ·)) (hin : ∀ d ∈ bd, d < shape.length)
+    (idx : List Nat) (h : inShape shape idx = true) :
+    ∃ sel ∈ batchify shape (some bd), inSel sel idx = true := by
+  have hl := inShape_length h
+  have hget : ∀ d, d < shape.length → idx.getD d 0 < shape.getD d 0 ∧ idx[d]? = some (idx.getD d 0) := by
+    intro d hd
+    have hd' : d < idx.length := by omega
+    have := inShape_getElem shape idx h d hd hd'
+    simp [List.getD_eq_getElem?_getD, List.getElem?_eq_getElem hd, List.getElem?_eq_getElem hd', this]
+  refine ⟨_, (mem_batchify hs).mpr ⟨bd.map (fun d => idx.getD d 0),
+    forall2_map_self (R := fun x d => x < shape.getD d 0) _ bd (fun d hd => (hget d (hin d hd)).1), rfl⟩, ?_⟩
+  apply inSel_of_getElem
+  · simp [hl]
+  · intro a v hv
+    by_cases ha : a < shape.length
+    · rw [List.getElem?_map, List.getElem?_range ha] at hv
+      simp only [Option.map_some, Option.some.injEq] at hv
+      by_cases hc : bd.contains a = true
+      · rw [if_pos hc, getD_map_idxOf _ bd a (by simpa using hc)] at hv
+        rw [(hget a ha).2, ← Option.some.inj hv]
+      · rw [if_neg hc] at hv; simp at hv
+    · rw [List.getElem?_eq_none (by simpa using ha)] at hv
+      simp at hv
+
+/-- **the batches are disjoint**: a voxel lies in one subset only -/
+theorem batchify_disjoint (shape bd : List Nat) (hs : bd.Pairwise (· < ·)) (idx : List Nat)
+    (s1 s2 : List (Option Nat)) (h1 : s1 ∈ batchify shape (some bd)) (h2 : s2 ∈ batchify shape (some bd))
+    (i1 : inSel s1 idx = true) (i2 : inSel s2 idx = true) : s1 = s2 := by
+  obtain ⟨c1, _, e1⟩ := (mem_batchify hs).mp h1
+  obtain ⟨c2, _, e2⟩ := (mem_batchify hs).mp h2
+  have g1 := (inSel_getElem s1 idx i1).2
+  have g2 := (inSel_getElem s2 idx i2).2
+  rw [e1, e2]
+  apply List.map_congr_left
+  intro a ha
+  have ha' : a < shape.length := List.mem_range.mp ha
+  by_cases hc : bd.contains a = true
+  · rw [if_pos hc, if_pos hc]
+    have v1 := g1 a (c1.getD (bd.idxOf a) 0) (by rw [e1, List.getElem?_map, List.getElem?_range ha']; simp only [Option.map_some, if_pos hc])
+    have v2 := g2 a (c2.getD (bd.idxOf a) 0) (by rw [e2, List.getElem?_map, List.getElem?_range ha']; simp only [Option.map_some, if_pos hc])
+    rw [v1] at v2
+    exact v2
+  · rw [if_neg hc, if_neg hc]
+
+/-- **the offset restores global coordinates**: a position of `scores[subset]` plus the yielded offset is a position of
+`scores` that lies in the subset (any `batch_dims`) -/
+theorem batchify_offset_restores_global (shape : List Nat) (bd : Option (List Nat)) (sel : List (Option Nat))
+    (hsel : sel ∈ batchify shape bd) (loc : List Nat) (hloc : inShape (selShape shape sel) loc = true) :
+    inShape shape (List.zipWith (· + ·) loc (selOffset sel)) = true ∧
+    inSel sel (List.zipWith (· + ·) loc (selOffset sel)) = true :=
+  selOffset_restores shape sel loc (batchify_rank shape bd sel hsel) hloc
+
+/-- and every position of the subset is reached that way -/
+theorem batchify_offset_reaches_subset (shape : List Nat) (sel : List (Option Nat)) (idx : List Nat)
+    (h : inShape shape idx = true) (hs : inSel sel idx = true) :
+    ∃ loc, inShape (selShape shape sel) loc = true ∧ List.zipWith (· + ·) loc (selOffset sel) = idx :=
+  selOffset_complete shape sel idx h hs
+
+/-- a 2×3×2 array with batch axes 0 and 2: four subsets of shape 1×3×1; voxel (1,2,0) lies in the third one, at
+local position (0,2,0) + offset (1,0,0) -/
+example : batchify [2, 3, 2] (some [0, 2]) =
+    [[some 0, none, some 0], [some 0, none, some 1], [some 1, none, some 0], [some 1, none, some 1]] ∧
+    selShape [2, 3, 2] [some 1, none, some 0] = [1, 3, 1] ∧ selOffset [some 1, none, some 0] = [1, 0, 0] ∧
+    inSel [some 1, none, some 0] [1, 2, 0] = true ∧
+    List.zipWith (· + ·) [0, 2, 0] (selOffset [some 1, none, some 0]) = [1, 2, 0] := by decide
+example : ([0, 2] : List Nat).Pairwise (· < ·) ∧ (∀ d ∈ ([0, 2] : List Nat), d < [2, 3, 2].length) ∧
+    inShape [2, 3, 2] [1, 2, 0] = true := by decide
+/-- a batch axis of extent 1: one subset, the whole array -/
+example : batchify [1, 3] (some [0]) = [[some 0, none]] ∧ selShape [1, 3] [some 0, none] = [1, 3] := by decide
+
+/-- **`batch_dims` that are not ascending**: the indices are enumerated in `batch_dims` order but assigned in axis
+order, so with shape 2×3 and `batch_dims = (1, 0)` axis 0 is sliced at 0, 1, 2 and axis 1 at 0, 1 only: the voxel (0,2)
+lies in no subset and the last two subsets are empty -/
+theorem batchify_descending_batch_dims_current_defect :
+    (∀ sel ∈ batchify [2, 3] (some [1, 0]), inSel sel [0, 2] = false) ∧ inShape [2, 3] [0, 2] = true ∧
+    [some 2, some 0] ∈ batchify [2, 3] (some [1, 0]) ∧ selShape [2, 3] [some 2, some 0] = [0, 1] := by decide
+
+/-! ## a caller built with `batch_dims`: `__call__` over the batches, `_update` per batch -/
+
+/-- `_update` with `batch_dims` reports rows it was given (running list or new candidates), unchanged -/
+theorem batched_update_reports_given_rows (cfg : Cfg) (bd : List Nat) (st cands : List Peak) :
+    ∀ p ∈ updateB cfg bd st cands, p ∈ st ∨ p ∈ cands := fun _ h => updateB_mem h
+
+/-- **any history of submissions to a caller with `batch_dims`**: two reported peaks of the same batch (equal on every
+batch axis) are strictly farther apart than the minimum distance -/
+theorem batched_history_same_batch_far (cfg : Cfg) (strat : Strategy) (bd : List Nat) (subs : List Sub)
+    (hmd : 0 < cfg.minDist) :
+    (runB cfg strat bd subs).Pairwise (fun a b =>
+      (∀ i ∈ bd, a.pos[i]? = b.pos[i]?) → (cfg.minDist : Int) * (cfg.minDist : Int) < d2 a.pos b.pos) :=
+  runB_aux_sepB hmd strat bd subs [] List.Pairwise.nil
+
+/-- **any history, every strategy with a deterministic model**: a reported peak is an in-bounds translation of one of
+the submitted arrays (global coordinates: the batch offset has been added back), carries that array's value there and
+that submission's rotation, lies in the score window, and keeps the margin on every non-batch axis -/
+theorem batched_history_submitted (cfg : Cfg) (strat : Strategy) (hs : strat ≠ .scipy) (bd : List Nat)
+    (subs : List Sub) (ho : ∀ s ∈ subs, s.orc.callTopk = none) :
+    ∀ p ∈ runB cfg strat bd subs, ∃ s ∈ subs, ∃ c : List Nat,
+      inShape s.scores.shape c = true ∧ p.pos = c.map Int.ofNat ∧ p.rot = s.rot ∧ p.score = s.scores.getD c 0 ∧
+      inWindow cfg p.score = true ∧
+      (0 < cfg.minBoundary → ∀ i (h1 : i < s.scores.shape.length) (h2 : i < c.length), bd.contains i = false →
+        cfg.minBoundary ≤ c[i] ∧ c[i] + cfg.minBoundary < s.scores.shape[i]) := by
+  intro p hp
+  rcases runB_aux_mem hs subs [] ho p hp with h | ⟨s, hs', c, h1, h2, h3, h4, h5, h6⟩
+  · simp at h
+  · refine ⟨s, hs', c, h1, h2, h3, h4, h5, ?_⟩
+    intro hmb i hi1 hi2 hb
+    exact inMarginB_spec _ bd 0 _ c (h6 hmb) i hi1 hi2 (by simpa using hb)
+
+/-- two batches along axis 0 of a 2×5 array, `min_distance = 2`, up to 3 peaks per batch: each row reports its own
+separated voxels ((0,2)=7 is suppressed by (0,4)=8 of its row); (0,4)=8 and (1,4)=9 are one voxel apart and both reported -/
+def exBatch : Arr Int := ⟨[2, 5], #[5, 1, 7, 0, 8, 6, 2, 3, 4, 9]⟩
+example : runB ⟨3, 2, 0, none, none⟩ .sort [0] [⟨exBatch, 1, {}⟩]
+    = [⟨[0, 4], 1, 8⟩, ⟨[0, 0], 1, 5⟩, ⟨[1, 4], 1, 9⟩, ⟨[1, 0], 1, 6⟩] := by decide
+example : runB ⟨2, 2, 0, none, none⟩ .maxFilter [0] [⟨exBatch, 1, {}⟩]
+    = runB ⟨2, 2, 0, none, none⟩ .sort [0] [⟨exBatch, 1, {}⟩] := by decide
+example : (⟨exBatch, 1, {}⟩ : Sub).orc.callTopk = none := rfl
+/-- with a margin of 1 the batch axis (extent 2) is exempt: columns 1..3 remain -/
+example : runB ⟨5, 2, 1, none, none⟩ .sort [0] [⟨exBatch, 1, {}⟩] = [⟨[0, 2], 1, 7⟩, ⟨[1, 3], 1, 4⟩] := by decide
+/-- the batch id of `_update` uses the flattening of `_filter_bucket`: the batches (0,1) and (2,0) of two batch axes
+share the id 2, so with `number_of_peaks = 1` only the better of the two is kept -/
+example : batchIds [0, 1] [⟨[0, 1, 0], 0, 5⟩, ⟨[2, 0, 0], 0, 9⟩] = [2, 2] ∧
+    updateB ⟨1, 1, 0, none, none⟩ [0, 1] [] [⟨[0, 1, 0], 0, 5⟩, ⟨[2, 0, 0], 0, 9⟩] = [⟨[2, 0, 0], 0, 9⟩] := by decide
+
+/-- `PeakCaller.merge(..., batch_dims, offset)`: every merged peak is a peak of one of the parts moved by the offset -/
+theorem batched_merge_from_parts (cfg : Cfg) (bd : List Nat) (off : Option (List Int)) (parts : List (Option (List Peak))) :
+    ∀ p ∈ mergeB cfg bd off [] parts, ∃ c, some c ∈ parts ∧ ∃ q ∈ c,
+      p = shiftPeak off q ∧ p.score = q.score ∧ p.rot = q.rot := by
+  intro p hp
+  rcases mergeB_mem parts [] p hp with h | ⟨c, hc, q, hq, rfl⟩
+  · simp at h
+  · exact ⟨c, hc, q, hq, rfl, shiftPeak_score _ _, shiftPeak_rot _ _⟩
+
+/-- merged peaks of one batch are strictly farther apart than the minimum distance -/
+theorem batched_merge_same_batch_far (cfg : Cfg) (bd : List Nat) (off : Option (List Int))
+    (parts : List (Option (List Peak))) (hmd : 0 < cfg.minDist) :
+    (mergeB cfg bd off [] parts).Pairwise (fun a b =>
+      (∀ i ∈ bd, a.pos[i]? = b.pos[i]?) → (cfg.minDist : Int) * (cfg.minDist : Int) < d2 a.pos b.pos) :=
+  mergeB_sepB hmd bd off parts [] List.Pairwise.nil
+
+example : mergeB ⟨3, 2, 0, none, none⟩ [0] (some [10, 20]) []
+    [some [⟨[0, 4], 1, 8⟩, ⟨[1, 4], 1, 9⟩], none, some [⟨[0, 3], 2, 7⟩, ⟨[1, 0], 2, 6⟩]]
+    = [⟨[10, 24], 1, 8⟩, ⟨[11, 24], 1, 9⟩, ⟨[11, 20], 2, 6⟩] := by decide
 
 /-! ## non-vacuity: concrete histories where every hypothesis holds and the conclusions bite -/
 
